@@ -3,7 +3,7 @@
    Oscore/*.v (written from the RFCs, extracted and run against libcoap on every check). *)
 From LibcoapV Require Import Base.Tactics Base.Bytes Wire.OptCodec Wire.Pdu Wire.PduProofs
   Oscore.Aes128 Oscore.Ccm Oscore.CcmProofs Oscore.Cbor Oscore.OscOption Oscore.OscOptionProofs
-  Oscore.Protect Oscore.ProtectProofs Oscore.Vectors.
+  Oscore.Protect Oscore.ProtectProofs Oscore.RangeProofs Oscore.DatagramProofs Oscore.Vectors.
 Local Open Scope Z_scope.
 
 (* ---- the compressed COSE object (OSCORE option value) ---- *)
@@ -72,6 +72,46 @@ Theorem C14_response_roundtrip_without_observe : forall c s m req_piv send_piv s
             osc_unprotect_resp c (m_token m) req_piv o = Some m.
 Proof. exact osc_response_roundtrip_plain. Qed.
 Print Assumptions C14_response_roundtrip_without_observe.
+
+(* ---- datagram level: protect, serialise for UDP, parse (C01's codec theorem), verify = the
+   original message; needs byte-valued context material (true of every derived context) ---- *)
+Theorem C14_request_datagram_roundtrip : forall c s m seq,
+  osc_paired c s -> osc_sec_bytes c -> msg_wf m -> osc_is_request (m_code m) = true ->
+  osc_has OSC_OPT (m_opts m) = false -> osc_has 35 (m_opts m) = false ->
+  0 <= seq < 1099511627776 ->
+  exists o, osc_protect_req c m seq = Some o /\
+            match parse UDP (serialize UDP o) with
+            | Some o' => osc_unprotect_req s o'
+            | None => None
+            end = Some m.
+Proof. exact osc_request_datagram_roundtrip. Qed.
+Print Assumptions C14_request_datagram_roundtrip.
+
+Theorem C14_response_datagram_roundtrip : forall c s m req_piv send_piv seq,
+  osc_paired c s -> osc_sec_bytes s -> msg_wf m -> 64 <= m_code m < 224 ->
+  osc_has OSC_OPT (m_opts m) = false -> osc_has 35 (m_opts m) = false ->
+  wfb req_piv -> 0 <= seq < 1099511627776 ->
+  exists o, osc_protect_resp s m req_piv send_piv seq = Some o /\
+            match parse UDP (serialize UDP o) with
+            | Some o' => osc_unprotect_resp c (m_token m) req_piv o'
+            | None => None
+            end = Some (osc_resp_view m (osc_resp_piv m send_piv seq)).
+Proof. exact osc_response_datagram_roundtrip. Qed.
+Print Assumptions C14_response_datagram_roundtrip.
+
+(* every context derived by HKDF from ids of at most 7 bytes is byte-valued *)
+Theorem C14_derived_context_bytes : forall secret salt idctx a b,
+  wfb a -> len a <= 7 -> wfb b -> len b <= 7 ->
+  match idctx with Some x => wfb x /\ len x <= 240 | None => True end ->
+  osc_sec_bytes (osc_derive secret salt idctx a b).
+Proof. exact osc_derive_bytes. Qed.
+Print Assumptions C14_derived_context_bytes.
+
+(* AES-CCM maps bytes to bytes *)
+Theorem C14_ciphertext_bytes : forall key nonce aad msg,
+  wfb key -> wfb nonce -> wfb aad -> wfb msg -> wfb (osc_ccm_enc key nonce aad msg).
+Proof. exact osc_ccm_enc_wfb. Qed.
+Print Assumptions C14_ciphertext_bytes.
 
 (* ---- nonce: injective in (sender id, sequence number) for ids up to 7 bytes and sequence
    numbers below 2^40 ---- *)
